@@ -41,6 +41,11 @@ pub trait MX: ML<S> + Copy {
     fn dflt() -> Self;
     fn diag_trace(self) -> (Vec<S>, S);
     fn bdiag(x: S) -> Self;
+    /// map_rows (row-major) / map_cols (column-major) with a per-line function that knows which line it is called on
+    fn map_lines(self) -> Self;
+    /// write `x` through the mutable flat view at position 1
+    fn slice_write(self, x: S) -> Self;
+    fn counts(&self) -> [usize; 4];
 }
 macro_rules! mx { ($M:ident $O:ident $n:tt rows=$rows:tt ($($i:tt)+) new($p:ident; $($a:expr),+)) => { impl MX for $M<S> {
     fn new_($p: &Abs) -> Self { $M::new($($a),+) }
@@ -76,7 +81,14 @@ macro_rules! mx { ($M:ident $O:ident $n:tt rows=$rows:tt ($($i:tt)+) new($p:iden
     fn dflt() -> Self { $M::default() }
     fn diag_trace(self) -> (Vec<S>, S) { (VL::ent(&self.diagonal()), self.trace()) }
     fn bdiag(x: S) -> Self { $M::broadcast_diagonal(x) }
+    fn map_lines(self) -> Self { let mut k = 0; mx!(@ml $rows self k) }
+    fn slice_write(self, x: S) -> Self { let mut m = self; mx!(@sw $rows m x); m }
+    fn counts(&self) -> [usize; 4] { [self.row_count(), self.col_count(), Self::ROW_COUNT, Self::COL_COUNT] }
 } };
+    (@ml true $s:ident $k:ident) => { $s.map_rows(|l| { $k += 1; let nm = format!("h{}", $k); l.map(|x| app(&nm, &[x])) }) };
+    (@ml false $s:ident $k:ident) => { $s.map_cols(|l| { $k += 1; let nm = format!("h{}", $k); l.map(|x| app(&nm, &[x])) }) };
+    (@sw true $m:ident $x:ident) => { $m.as_mut_row_slice()[1] = $x };
+    (@sw false $m:ident $x:ident) => { $m.as_mut_col_slice()[1] = $x };
     (@rs true $s:ident) => { Some($s.as_row_slice().to_vec()) };
     (@rs false $s:ident) => { None };
     (@cs true $s:ident) => { None };
@@ -183,6 +195,18 @@ fn views<R: MX, C: MX>() {
     let bd: Abs = (0..n).map(|i| (0..n).map(|j| if i == j { x } else { zero() }).collect()).collect();
     agree("broadcast_diagonal: rows", &R::bdiag(x), &bd);
     agree("broadcast_diagonal: cols", &C::bdiag(x), &bd);
+    // map_rows hands the rows over in order (k-th call = row k), map_cols the columns
+    let by_row: Abs = (0..n).map(|i| (0..n).map(|j| app(&format!("h{}", i + 1), &[a[i][j]])).collect()).collect();
+    let by_col: Abs = (0..n).map(|i| (0..n).map(|j| app(&format!("h{}", j + 1), &[a[i][j]])).collect()).collect();
+    agree("map_rows: k-th call gets row k, result row k", &r.map_lines(), &by_row);
+    agree("map_cols: k-th call gets column k, result column k", &c.map_lines(), &by_col);
+    // a write through the mutable flat view lands on the element the view's name says
+    let (mut wr, mut wc) = (a.clone(), a.clone());
+    wr[0][1] = x;
+    wc[1][0] = x;
+    agree("as_mut_row_slice()[1] is element (0,1)", &r.slice_write(x), &wr);
+    agree("as_mut_col_slice()[1] is element (1,0)", &c.slice_write(x), &wc);
+    goal("row_count/col_count/ROW_COUNT/COL_COUNT", lit(r.counts() == [n; 4] && c.counts() == [n; 4]));
 }
 /// conversions between sizes keep the common block and pad with the identity
 fn resize() {
@@ -225,7 +249,7 @@ pub fn list() -> Vec<Entry> {
         for code in codes(3) {
             v.push((format!("c03/programT/{}/{}", $n, code_name(code)), "C03", 1, funcs.clone(), Box::new(move || program::<$R<S>, $C<S>>(code))));
         }
-        v.push((format!("c03/views/{}", $n), "C03", 0, vec!["as_row_slice", "as_col_slice", "gl_should_transpose", "Display", "Default", "diagonal", "trace", "broadcast_diagonal"], Box::new(|| views::<$R<S>, $C<S>>())));
+        v.push((format!("c03/views/{}", $n), "C03", 0, vec!["as_row_slice", "as_col_slice", "gl_should_transpose", "Display", "Default", "diagonal", "trace", "broadcast_diagonal", "map_rows", "map_cols", "as_mut_row_slice", "as_mut_col_slice", "row_count", "col_count"], Box::new(|| views::<$R<S>, $C<S>>())));
     } }
     let _ = seed;
     per!(Rows2 Cols2 2);
